@@ -265,7 +265,16 @@ static void lvalueInfo(const Expr *E, Ctx &X, json::Object &o) {
 
 struct EventCollector : RecursiveASTVisitor<EventCollector> {
   Ctx &X; json::Array &ev; std::set<const Stmt *> &seen; Summ &S;
+  // CFG element -> block: sub-expressions that clang evaluates in another block (arms of ?:, operands of && and ||,
+  // calls hoisted into their own element) are not attributed to the block that merely mentions them
+  const std::map<const Stmt *, unsigned> *elemBlock = nullptr; unsigned curBlock = 0; const Stmt *root = nullptr;
   EventCollector(Ctx &X, json::Array &ev, std::set<const Stmt *> &seen, Summ &S) : X(X), ev(ev), seen(seen), S(S) {}
+  bool dataTraverseStmtPre(Stmt *St) {
+    if (!elemBlock || !St || St == root) return true;
+    auto it = elemBlock->find(St);
+    if (it != elemBlock->end() && it->second != curBlock) return false;
+    return true;
+  }
   bool shouldVisitImplicitCode() const { return false; }
   // post-order so that sub-expressions (calls in the rhs) precede the assignment using them
   bool shouldTraversePostOrder() const { return true; }
@@ -501,6 +510,8 @@ public:
     CFG::BuildOptions BO;
     auto cfg = CFG::buildCFG(F, F->getBody(), &X.C, BO);
     json::Array blocks; std::set<const Stmt *> seen;
+    std::map<const Stmt *, unsigned> elemBlock;
+    if (cfg) for (auto *B : *cfg) for (auto &E : *B) if (auto CS = E.getAs<CFGStmt>()) elemBlock[CS->getStmt()] = B->getBlockID();
     if (cfg) {
       fo["entry"] = cfg->getEntry().getBlockID(); fo["exit"] = cfg->getExit().getBlockID();
       for (auto *B : *cfg) {
@@ -524,7 +535,7 @@ public:
           auto CS = E.getAs<CFGStmt>(); if (!CS) continue; const Stmt *st = CS->getStmt();
           if (auto *DS = dyn_cast<DeclStmt>(st)) {
             for (auto *D : DS->decls()) if (auto *VD = dyn_cast<VarDecl>(D)) {
-              if (VD->hasInit() && !VD->isStaticLocal()) { EventCollector ec(X, ev, seen, S); ec.TraverseStmt(VD->getInit()); }
+              if (VD->hasInit() && !VD->isStaticLocal()) { EventCollector ec(X, ev, seen, S); ec.elemBlock = &elemBlock; ec.curBlock = B->getBlockID(); ec.root = VD->getInit(); ec.TraverseStmt(VD->getInit()); }
               json::Object o; o["k"] = "decl"; o["var"] = VD->getNameAsString(); o["id"] = X.declId(VD); o["type"] = X.typeStr(VD->getType()); o["line"] = X.line(VD->getLocation()); o["static_local"] = VD->isStaticLocal();
               o["is_array"] = VD->getType()->isArrayType(); o["vla"] = VD->getType()->isVariableArrayType();
               if (VD->hasInit()) o["init"] = S(VD->getInit());
@@ -533,12 +544,12 @@ public:
             continue;
           }
           if (auto *RS = dyn_cast<ReturnStmt>(st)) {
-            if (RS->getRetValue()) { EventCollector ec(X, ev, seen, S); ec.TraverseStmt(const_cast<Expr *>(RS->getRetValue())); }
+            if (RS->getRetValue()) { EventCollector ec(X, ev, seen, S); ec.elemBlock = &elemBlock; ec.curBlock = B->getBlockID(); ec.root = RS->getRetValue(); ec.TraverseStmt(const_cast<Expr *>(RS->getRetValue())); }
             json::Object o; o["k"] = "return"; o["line"] = X.line(RS->getReturnLoc()); o["ctx"] = lexctx(RS, S); o["macros"] = X.macros(RS->getReturnLoc());
             if (RS->getRetValue()) o["expr"] = S(RS->getRetValue());
             ev.push_back(std::move(o)); continue;
           }
-          EventCollector ec(X, ev, seen, S); ec.TraverseStmt(const_cast<Stmt *>(st));
+          EventCollector ec(X, ev, seen, S); ec.elemBlock = &elemBlock; ec.curBlock = B->getBlockID(); ec.root = st; ec.TraverseStmt(const_cast<Stmt *>(st));
         }
         bo["ev"] = std::move(ev);
         if (const Stmt *T = B->getTerminatorStmt()) {
